@@ -117,8 +117,8 @@ def run(chk):
         "TRAJ": ["aj43*1", "TRAJ28*01", "junk", None],
         "TRBV": ["bv13*1", "TCRBV28S1*01", "TRBV7-2*01", "TRBV1*01", "TRBV1", "TRBV12-1", "xx", None],
         "TRBJ": ["bj1.5*1", "TRBJ2-4*01", "nope", None],
-        "CDR3A": ["CIVRAPGRADMRF", "AVPSGAGSYQLT", "ATQY", "unknown", "cavr", None, ""],
-        "CDR3B": ["CASSYLPGQGDHYSNQPQHF", "ASSDWGSQNTLY", "ASSQ", "CASS LF", None, "12345"],
+        "CDR3A": ["CIVRAPGRADMRF", "AVPSGAGSYQLT", "ATQY", "CAVSGC", "CC", "unknown", "cavr", None, ""],
+        "CDR3B": ["CASSYLPGQGDHYSNQPQHF", "ASSDWGSQNTLY", "ASSQ", "CASSLGC", "C", "CASSW", "CASS LF", None, "12345"],
         "Epitope": ["FLKEKGGL", "not an epitope", "glcTLVAML", None, ""],
         "MHCA": ["b8", "HLA-DQA1*05", "HLA-A*02:01", "zzz", None],
         "MHCB": ["b2m", "HLA-DQB1*02", "B2M", None, "junk"],
